@@ -594,6 +594,7 @@ class Probe:
         for i, st in enumerate(stmts):
             if st["k"] == "let":
                 v = self.ev(st["init"], env) if st.get("init") is not None else None
+                v = self._collect_into(st, v)
                 b = self.pmatch(st["pat"], v, env)
                 if b is None:
                     if st.get("else") is not None:
@@ -609,6 +610,28 @@ class Probe:
             else:
                 raise NoEval("statement %s" % st["k"])
         return val
+
+    def _collect_into(self, st, v):
+        """`let x: T = ITER.collect();` with T a crate type that implements FromIterator by hand: what its from_iter makes of
+        the collected elements (and through it the Extend impl it may delegate to)."""
+        if not isinstance(v, list):
+            return v
+        init = rx.peel(st.get("init") or {})
+        if not (init.get("k") == "mcall" and init.get("m") == "collect"):
+            return v
+        ty = None
+        p_ = st["pat"]
+        if isinstance(p_, dict) and p_.get("k") == "typed":
+            ty = norm_ty(p_.get("ty") or "")
+        if init.get("targs"):
+            ty = norm_ty(init["targs"][0])
+        ty = (ty or "").split("<")[0]
+        if not ty or (ty not in self.f.structs and ty not in self.f.enums):
+            return v
+        fi = [f_ for k_, f_ in self.f.fns.items() if k_.startswith("<%s as " % ty) and "FromIterator" in k_ and k_.endswith(">::from_iter") and not f_.test]
+        if len(fi) != 1:
+            return v
+        return self.invoke(fi[0], None, [v])
 
     def apply(self, fv, args):
         if isinstance(fv, tuple) and fv and fv[0] == "closure":
